@@ -48,6 +48,160 @@ theorem wf_access_like {t t' : TTN} {id : Id} {n : NodeS} {Ts T : Tensor} (h : t
     · simp only [hki, if_false] at hk hT'
       exact h.fit k n' T' hk hT'
 
+theorem srel_same (x : Id) (aCh : List Id) (k : Id) (n : NodeS) : SRel x x x aCh k n n := by
+  refine ⟨rfl, rfl, ?_⟩
+  simp only [structOf, splitRen, Prod.mk.injEq]
+  constructor
+  · cases hp : n.parent with
+    | none => rfl
+    | some p => by_cases e : p = x <;> simp [e]
+  · have : (fun c => if c = x then x else c) = (id : Id → Id) := by
+      funext c; by_cases hc : c = x <;> simp [hc]
+    rw [this]; simp
+
+/-- Extensional description of `change_node_identifier(new, old)`: the node object and its array (now in
+    logical order) move to the key `new`; every other node has its references renamed. -/
+theorem rename_final {t t' : TTN} {new old : Id} (h : t.WF) (hnew : new = old ∨ t.N new = none)
+    (hs : t.changeNodeIdentifier new old = some t') :
+    ∃ X Ts L, t.N old = some X ∧ dget t.tensors old = some Ts ∧ transposeT Ts X.perm = some L ∧
+      t'.N new = some X.resetPermutation ∧ (new ≠ old → t'.N old = none) ∧
+      (∀ k, k ≠ new → k ≠ old → (t.N k = none → t'.N k = none) ∧
+        (∀ n, t.N k = some n → ∃ n', t'.N k = some n' ∧ SRel old new new X.children k n n')) ∧
+      (∀ k, dget t'.tensors k = if k = new then some L else if k = old then none else dget t.tensors k) := by
+  unfold TTN.changeNodeIdentifier at hs
+  cases hacc : t.access old with
+  | none => simp [hacc, bind, Option.bind] at hs
+  | some r =>
+    obtain ⟨t1, L⟩ := r
+    simp only [hacc, bind, Option.bind] at hs
+    obtain ⟨X, Ts, e1, e2, e3, rfl⟩ := access_eq hacc
+    have hXN : t.N old = some X := e1
+    cases hpop : dpop (dset t.tensors old L) old with
+    | none => simp [hpop] at hs
+    | some ts =>
+      simp only [hpop] at hs
+      obtain ⟨_, hts⟩ := dpop_eq_some _ _ _ hpop
+      have hts' : ∀ k, dget ts k = if k = old then none else dget t.tensors k := by
+        intro k; rw [hts k, dget_dset]; by_cases hk : k = old <;> simp [hk]
+      by_cases hon : old = new
+      · -- identity renaming
+        simp only [hon, ne_eq, not_true_eq_false, if_false, Option.some.injEq] at hs
+        subst hs
+        subst hon
+        refine ⟨X, Ts, L, hXN, e2, e3, by simp [TTN.N, dget_dset], fun e => absurd rfl e, ?_, ?_⟩
+        · intro k hk _
+          have hNk : TTN.N (⟨dset t.nodes old X.resetPermutation, dset ts old L, t.root, t.nextLabel⟩ : TTN) k
+              = t.N k := by simp [TTN.N, dget_dset, hk]
+          rw [hNk]
+          exact ⟨fun e => e, fun n hn => ⟨n, hn, srel_same old X.children k n⟩⟩
+        · intro k
+          simp only [dget_dset, hts' k]
+      · simp only [ne_eq, hon, not_false_eq_true, if_true] at hs
+        have hne : new ≠ old := fun e => hon e.symm
+        have hnewN : t.N new = none := by
+          rcases hnew with e | e
+          · exact absurd e hne
+          · exact e
+        split at hs
+        · simp at hs
+        · split at hs
+          · simp at hs
+          · cases hr : TTN.replaceNodeInNeighbours
+                (⟨dset t.nodes old X.resetPermutation, dset ts new L, t.root, t.nextLabel⟩ : TTN) new old false with
+            | none => simp [hr] at hs
+            | some t3 =>
+              simp only [hr] at hs
+              cases hnode : dget t3.nodes old with
+              | none => simp [hnode] at hs
+              | some node =>
+                simp only [hnode] at hs
+                cases hpop2 : dpop t3.nodes old with
+                | none => simp [hpop2] at hs
+                | some ns =>
+                  simp only [hpop2, Option.some.injEq] at hs
+                  subst hs
+                  obtain ⟨O, hO, hN3, hroot3, hten3, _⟩ := rnin_eq hne hr
+                  have hN2 : ∀ k, TTN.N (⟨dset t.nodes old X.resetPermutation, dset ts new L, t.root,
+                      t.nextLabel⟩ : TTN) k = if k = old then some X.resetPermutation else t.N k := by
+                    intro k; simp [TTN.N, dget_dset]
+                  rw [hN2] at hO; simp at hO; subst hO
+                  have hOp : X.resetPermutation.parent = X.parent := rfl
+                  have hOc : X.resetPermutation.children = X.children := rfl
+                  obtain ⟨_, hns⟩ := dpop_eq_some _ _ _ hpop2
+                  -- structure facts
+                  have hstr := h.str
+                  have hSX := TTN.S_eq hXN
+                  have hold_notin : old ∉ X.children := by
+                    intro hm
+                    obtain ⟨cch, e⟩ := hstr.down old _ _ old hSX hm
+                    exact hstr.parent_ne e rfl
+                  have hpar_ne : ¬ X.parent = some old := by
+                    intro e
+                    exact hstr.parent_ne (k := old) (p := old) (by rw [hSX, e]) rfl
+                  have hnode_eq : node = X.resetPermutation := by
+                    have : t3.N old = some node := hnode
+                    rw [hN3, hN2] at this
+                    simp [hOp, hOc, hpar_ne, hold_notin] at this
+                    exact this.symm
+                  subst hnode_eq
+                  -- final dictionaries
+                  have hNf : ∀ k, TTN.N (⟨dset ns new X.resetPermutation, t3.tensors, t3.root, t3.nextLabel⟩ : TTN) k =
+                      if k = new then some X.resetPermutation else if k = old then none else t3.N k := by
+                    intro k
+                    simp only [TTN.N, dget_dset, hns k]
+                  have hby : ∀ k, k ≠ new → k ≠ old →
+                      (t.N k = none → t3.N k = none) ∧
+                      (∀ n, t.N k = some n → ∃ n', t3.N k = some n' ∧ SRel old new new X.children k n n') := by
+                    intro k hk1 hk2
+                    have hN3k : t3.N k = if X.parent = some k then
+                          (if k ∈ X.children then (t.N k).map (setParent new) else t.N k).bind
+                            (fun pn => TTN.replaceChild pn old new)
+                        else if k ∈ X.children then (t.N k).map (setParent new) else t.N k := by
+                      rw [hN3]
+                      simp [hOp, hOc, hk1, hk2, hN2]
+                    rw [hN3k]
+                    constructor
+                    · intro hnone
+                      simp [hnone]
+                    · intro n hn
+                      obtain ⟨c1, c2, c3, c4⟩ := srel_cases h (a := new) (b := new) (aCh := X.children) (bCh := [])
+                        hXN hn hk2 (fun c => by simp) (fun c _ => by simp)
+                      by_cases hg : X.parent = some k
+                      · have hkc : k ∉ X.children := by
+                          intro hm
+                          obtain ⟨cch, e⟩ := hstr.down old _ _ k hSX hm
+                          exact hstr.no_two_cycle (a := old) (b := k) (by rw [hSX, hg]) e
+                        obtain ⟨n', r1, r2⟩ := c3 hg
+                        have hpn : ¬ n.parent = some old := by
+                          intro e
+                          exact hstr.no_two_cycle (a := old) (b := k) (by rw [hSX, hg]) (by rw [TTN.S_eq hn, e])
+                        have hmem : old ∈ n.children := by
+                          obtain ⟨pp, pch, q1, q2⟩ := hstr.up old k X.children (by rw [hSX, hg])
+                          rw [TTN.S_eq hn] at q1; simp at q1; rw [q1.2]; exact q2
+                        have hrc : TTN.replaceChild n old new = some n' := by
+                          simpa [TTN.replaceNeighbour, hpn, hmem] using r1
+                        exact ⟨n', by simp [hg, hkc, hn, hrc], r2⟩
+                      · by_cases hm : k ∈ X.children
+                        · obtain ⟨n', r1, r2⟩ := c1 hm
+                          have hp : n.parent = some old := by
+                            obtain ⟨cch, e⟩ := hstr.down old _ _ k hSX hm
+                            rw [TTN.S_eq hn] at e; simp at e; exact e.1
+                          have : n' = setParent new n := by
+                            simp [TTN.replaceNeighbour, hp] at r1
+                            rw [← r1]; rfl
+                          subst this
+                          exact ⟨setParent new n, by simp [hg, hm, hn], r2⟩
+                        · exact ⟨n, by simp [hg, hm, hn], c4 hm (by simp) hg⟩
+                  refine ⟨X, Ts, L, hXN, e2, e3, by rw [hNf]; simp, fun _ => by rw [hNf]; simp [hon], ?_, ?_⟩
+                  · intro k hk1 hk2
+                    rw [hNf]
+                    simp only [hk1, hk2, if_false]
+                    exact hby k hk1 hk2
+                  · intro k
+                    show dget t3.tensors k = _
+                    rw [hten3]
+                    simp only [dget_dset, hts' k]
+
 /-- **`change_node_identifier(new, old)` keeps the network well-formed** when `new` is `old` or unused. -/
 theorem rename_wf_aux {t t' : TTN} {new old : Id} (h : t.WF) (hnew : new = old ∨ t.N new = none)
     (hs : t.changeNodeIdentifier new old = some t') : t'.WF := by
